@@ -77,7 +77,7 @@ def gen_case(rng, tier, index):
              "grow": rng.choice([None, None,
                                  [rng.random(), rng.randrange(1, 6)]])}
         return c
-    g = gen_rewrite.Gen(rng, tier)
+    g = gen_rewrite.Gen(rng, tier, align_lines=True, other_sections=False)
     case = g.module()
     g.edits()
     case["workload"] = "align"
@@ -560,7 +560,10 @@ def run_align(case):
         if blk.byte_interval is None or blk.size == 0:
             continue
         ctr["alignment_checks"] += 1
-        if table.get(blk) != a:
+        # (a patch inserted at the block's start may have asked for more: the
+        # entry may grow; that requirement is judged with the patch's)
+        if table.get(blk) != a and not (
+                table.get(blk) and table[blk] % a == 0):
             viol.append({"key": "align:entry-changed-or-lost",
                          "msg": f"{a} -> {table.get(blk)}"})
             continue
@@ -577,6 +580,47 @@ def run_align(case):
                          "msg": f"address {blk.address:#x} % {a}"})
         else:
             held += 1
+    # alignment a patch asks for: the instruction behind a group of
+    # alignment directives at the start of a patch (its marker) stands at a
+    # multiple of the strictest of them
+    from .. import vocab as _vocab
+    for eid, e in enumerate(case["edits"]):
+        lines = e.get("p", {}).get("lines") if e.get("op") in (
+            "ins", "rep") else None
+        if not lines or lines[0].get("d") != "balign":
+            continue
+        want = 1
+        first = None
+        for ln in lines:
+            if ln.get("d") == "balign":
+                want = max(want, ln["n"])
+            elif "k" in ln:
+                first = ln
+                break
+        if first is None or first["k"] != "mark":
+            continue
+        needle = _vocab.encode(case["isa"], "mark", first["imm"])
+        for row in r.bu.intervals:
+            for bi in row:
+                k = bytes(bi.contents).find(needle)
+                if k >= 0 and bi.address is not None:
+                    ctr["patch_alignment_checks"] = ctr.get(
+                        "patch_alignment_checks", 0) + 1
+                    if (bi.address + k) % want:
+                        first_of_iv = any(
+                            iv["blocks"] and iv["blocks"][0]["id"] == e["b"]
+                            for s_ in case["secs"] for iv in s_["ivs"])
+                        atab = r.bu.module.aux_data["alignment"].data
+                        earlier = any(b in atab and b.offset < k
+                                      for b in bi.blocks)
+                        ctx = ("mid-block" if e["i"] > 0 else
+                               "first-block-of-interval" if first_of_iv
+                               else "later-aligned-block-of-interval"
+                               if earlier else "block-start")
+                        viol.append({
+                            "key": f"align:patch-requirement-not-met:{ctx}",
+                            "msg": f"edit {eid}: {bi.address + k:#x} % "
+                                   f"{want}"})
     lst = rewrite.expected(case)
     lst.layout()
     nop = nop_of(case["isa"])
